@@ -3,8 +3,9 @@
 import sys, os, json, shutil, subprocess, re
 prop, m = sys.argv[1], sys.argv[2]
 checks = [prop] + sys.argv[3:]
-src = f"/tmp/wt/{prop}/_seed/{m}"
-sid = f"S-{prop}-{m}"
+pref = os.environ.get("SEEDPREFIX", "S")
+src = os.environ.get("SEEDSRC", "/tmp/wt/{prop}/_seed/{m}").format(prop=prop, m=m)
+sid = f"{pref}-{prop}-{m}"
 dst = f"/verif/seeded/{sid}"
 os.makedirs(dst, exist_ok=True)
 for f in ("patch.diff", "demo.c", "README.md"):
